@@ -72,6 +72,12 @@ CHECKS = {
         "Trusted: harness/src/model/price.rs; price events read off the written postings (cost, else lot). Queries with several admissible rates are counted, not judged. Tolerance 1e-18 of the magnitude of the converted terms, ties at the rounding boundary accept both neighbours.",
         "4/C10",
     ),
+    "C11": (
+        "runtime monitor: order-sensitive accepted ledgers cut into random include trees (literal, parent-relative, glob, decoys, no-match) on the in-memory and the real file system; delivered (path, entry, line) sequence and reports compared with the unsplit ledger",
+        "1.2*10^4 (quick) / 6*10^5 (thorough) trees of depth <= 3 (about 8 files each): Loader::load must deliver exactly the written entries in the written order with each entry's own file and first line, never an include line; report::process on the tree must give the stored postings and balances of the unsplit text; `okane balance/register/primitive flatten` stdout must be identical (sample); an include that matches nothing (or only dot-files / deeper files) must fail on both file systems.",
+        "Trusted: the tree builder (expected flattening known by construction); byte-wise path order. One genuine defect found and fixed (FakeFileSystem did not resolve `..`).",
+        "4/C11",
+    ),
 }
 
 NOT_APPLICABLE = []
